@@ -18,18 +18,22 @@ import cert
 import common
 
 MANIFEST = dict(
-    text='Theorems (props/C11.v, 24) about a real-valued list model of Fatigue.damage, solidity.haibach/fkm, '
+    text='Theorems (props/C11.v, 27) about a real-valued list model of Fatigue.damage, solidity.haibach/fkm, '
          'MinerElementary/MinerHaibach.lifetime_multiple, MinerBase.gassner_cycles, MinerElementary.gassner, effective_damage_sum and '
          'WoehlerCurve.cycles/miner_*: damage additive / proportional / permutation invariant (member-wise and in the sum); '
          'original <= Haibach <= elementary with the closed form of each member; Gassner cycles give damage exactly one for Miner-Haibach '
          '(max amplitude >= SD, any empty classes) and for Miner elementary when the top class is occupied; with an empty top class the code '
          'gives (S_occupied/S_all)^k1 < 1 (general formula + refutation witness; genuine defect, repair proved correct as gassner_cycles_occ); '
+         'for curves with scatter whose native failure probability is not 50 % the Haibach lifetime multiple takes the knee from the native curve '
+         'while cycles()/damage() use the curve at 50 %: damage A(native knee)/A(knee at 50 %) (general value + refutation witness 9/10; genuine defect, '
+         'with equal knees it reduces to the proved damage one); '
          'solidity in (0,1], A_ele >= 1, fkm^k = haibach; effective damage sum in [0.3,1] with its clipping points. '
          'The model is tied to the implementation on every run by CoqInterval certificates (kernel-checked) on collectives and fixed-bin '
          'histograms (range, range x mean, from-to, DataFrame) with empty classes at top / bottom / middle, at load levels around the knee.',
     note=common.TB_NOTE + 'the list model is hand-written (not translated): its agreement with the code is established per run by interval '
-         'certificates on sampled inputs only; float rounding, pandas index alignment / broadcasting over several curves, failure probabilities '
-         'other than the native one and TN/TS scatter are outside the theorems; below the knee point Miner-Haibach Gassner cycles are inf / not '
+         'certificates on sampled inputs only; float rounding, pandas index alignment / broadcasting over several curves are outside the theorems; '
+         'the transformation of a curve with scatter to 50 % failure probability is taken from the implementation (SD, ND of '
+         'transform_to_failure_probability(0.5)), not modelled; below the knee point Miner-Haibach Gassner cycles are inf / not '
          'the Haibach life (documented in the source) and are excluded from the damage-one clause.',
     technique='Coq proof over a hand-written real-valued list model + CoqInterval certificates + relations on the implementation',
     design='6/C11')
@@ -675,8 +679,11 @@ def run(res, only_cases=None, with_eds=True):
                         'amplitudes are >= 0 (they are |from - to| / 2 or half a non-negative range class value); one curve, one collective (no broadcasting)',
                         'damage-one clause: load level (largest amplitude) at or above the knee point SD, or (elementary) a curve with k_2 = k_1; '
                         'below the knee MinerHaibach documents inf',
-                        'native failure probability (50 %) only; TN/TS do not enter']
+                        'curves with scatter (TN/TS) / native failure probability != 50 %: the model curve is the curve at 50 % as '
+                        'WoehlerCurve.transform_to_failure_probability(0.5) reports it (the transformation itself is not modelled here); the knee point '
+                        'used by MinerHaibach.lifetime_multiple (native / at 50 %) is probed per run and recorded']
     res.cov['rule'] = ('curves k_1 in {1..10}, k_2 in {inf, k_1, 2k_1-1, 15, 22.5}, SD placed at 0.125..2.5 x the top amplitude or exactly on a member; '
+                       '6 of 14 curves plain, the others with TN and/or TS (1.1..12) and/or failure_probability in {0.001, 0.025, 0.1, 0.3, 0.5, 0.9, 0.975}; '
                        'collectives as range / range x mean / from-to histograms and from-to / range-mean DataFrames, 1..8 classes (thorough: 4 cases with 12..24), '
                        'dyadic class limits, class location mid/left/right, optional scale(); count patterns full / empty top (1-2) / empty bottom / '
                        'empty middle / sparse / single / non-integer. non-trivial = distinct case with >= 2 occupied members and >= 1 empty class')
